@@ -905,13 +905,7 @@ func (s *SSEServer) processRequestAsync(ctx context.Context, request *JSONRPCReq
 			s.logger.Errorf("Error encoding error response: %v", err)
 			return
 		}
-		event := formatSSEEvent("message", fullResponseData)
-		select {
-		case session.eventQueue <- event:
-			// Successfully queued
-		default:
-			s.logger.Errorf("Failed to queue error response: event queue full for session %s", session.sessionID)
-		}
+		s.queueAnswer(session, formatSSEEvent("message", fullResponseData))
 		return
 	}
 
@@ -1073,15 +1067,18 @@ func (s *SSEServer) handleRequestError(err error, requestID interface{}, session
 
 	// Send error response.
 	responseData, _ := json.Marshal(errorResponse)
-	event := formatSSEEvent("message", responseData)
+	s.queueAnswer(session, formatSSEEvent("message", responseData))
+}
 
+// queueAnswer queues the answer to an accepted (202) request for the session's stream. An answer is never
+// dropped while the connection is up: when the queue is full the request's goroutine waits for room, and
+// gives up only when the session ends.
+func (s *SSEServer) queueAnswer(session *sseSession, event string) {
 	select {
 	case session.eventQueue <- event:
-		// Error response queued successfully.
+		// Queued.
 	case <-session.done:
-		s.logger.Debugf("Session closed, cannot send error response: %s", session.sessionID)
-	default:
-		s.logger.Errorf("Failed to queue error response: event queue full for session %s", session.sessionID)
+		s.logger.Debugf("Session closed, cannot send response: %s", session.sessionID)
 	}
 }
 
@@ -1104,17 +1101,7 @@ func (s *SSEServer) sendSuccessResponse(requestID interface{}, result interface{
 	}
 
 	// Send response via SSE connection.
-	event := formatSSEEvent("message", fullResponseData)
-
-	// Send to SSE connection.
-	select {
-	case session.eventQueue <- event:
-		// Response queued successfully.
-	case <-session.done:
-		s.logger.Debugf("Session closed, cannot send response: %s", session.sessionID)
-	default:
-		s.logger.Errorf("Failed to queue response: event queue full for session %s", session.sessionID)
-	}
+	s.queueAnswer(session, formatSSEEvent("message", fullResponseData))
 }
 
 // writeJSONRPCError writes a JSON-RPC error response.
